@@ -371,10 +371,22 @@ fn rec_i32(b: &mut Bufs, at: usize, field: usize) -> i32 {
 
 const CLIENT_ID: i64 = 100; // the correlation counter starts here; DriverProxy::new draws the client id from it
 
+/// A second, valid conductor used as the `arced_self` handle of resources created by the conductor under test, so that
+/// destructor paths CBMC explores (Counter::drop / Subscription::drop -> conductor.lock().release_*) run on valid memory
+/// instead of the uninitialised dummy. The harnesses `mem::forget` every handle, so no such destructor really runs.
+fn sink_conductor() -> Arc<Mutex<ClientConductor>> {
+    let bufs: &'static mut Bufs = Box::leak(Box::new(Bufs::new()));
+    bufs.set_correlation_counter(9000);
+    let mut c = conductor(bufs, 1000, 1000, 1000);
+    c.arced_self = None;
+    Arc::new(Mutex::new(c))
+}
+
 fn fresh(b: &mut Bufs, driver_timeout: u64) -> ClientConductor {
     b.set_correlation_counter(CLIENT_ID);
     b.set_driver_heartbeat(-1);
-    let c = conductor(b, driver_timeout, 5000, 5000);
+    let mut c = conductor(b, driver_timeout, 5000, 5000);
+    c.arced_self = Some(sink_conductor());
     unsafe {
         SEEN.errors = 0;
         SEEN.avail_counters = 0;
@@ -579,3 +591,33 @@ sub_protocol!(c09_subscription_error_reported_once, 2);
 sub_protocol!(c09_subscription_foreign_error_ignored, 3);
 // @verif tier=quick unwind=6 fs=1300 timeout=1500
 sub_protocol!(c09_subscription_unanswered_times_out, 4);
+
+// @verif tier=off unwind=6 fs=1300 timeout=900
+#[kani::proof]
+#[kani::stub(std::hash::RandomState::new, stub_random_state)]
+fn c09_probe_a_ready_only() {
+    let mut b = Bufs::new();
+    let mut c = fresh(&mut b, 1000);
+    unsafe { SEEN.now = 5 };
+    let key = [1u8; 4];
+    let id = vok!(c.add_counter(3, &key, "ab"), "C09: add");
+    c.on_available_counter(id, 1);
+    assert!(unsafe { SEEN.avail_counters } == 1, "C09: probe");
+    std::mem::forget(c);
+}
+
+// @verif tier=off unwind=6 fs=1300 timeout=900
+#[kani::proof]
+#[kani::stub(std::hash::RandomState::new, stub_random_state)]
+fn c09_probe_b_ready_find_once() {
+    let mut b = Bufs::new();
+    let mut c = fresh(&mut b, 1000);
+    unsafe { SEEN.now = 5 };
+    let key = [1u8; 4];
+    let id = vok!(c.add_counter(3, &key, "ab"), "C09: add");
+    c.on_available_counter(id, 1);
+    let x = vok!(c.find_counter(id), "C09: found");
+    assert!(x.id() == 1, "C09: probe");
+    std::mem::forget(x);
+    std::mem::forget(c);
+}
